@@ -126,6 +126,13 @@ func main() {
 		fail(fmt.Errorf("store self-test: %w", err))
 	}
 
+	env.RedisBackend, err = c10.ProbeRedisBackend()
+	if err != nil {
+		env.Close()
+		os.RemoveAll(dir)
+		fail(fmt.Errorf("store self-test (redis): %w", err))
+	}
+
 	w, err := trace.Create(*tracePath)
 	if err != nil {
 		fail(err)
@@ -144,5 +151,5 @@ func main() {
 		fail(runErr)
 	}
 
-	fmt.Fprintf(out, "EXECUTED cases=%d lines=%d backend=%s\n", len(cases), w.Lines(), env.Backend)
+	fmt.Fprintf(out, "EXECUTED cases=%d lines=%d backend=%s redis=%s\n", len(cases), w.Lines(), env.Backend, env.RedisBackend)
 }
